@@ -14,6 +14,7 @@ import (
 	"runtime/debug"
 	"strconv"
 	"sync"
+	"sync/atomic"
 	"testing"
 	"time"
 
@@ -441,8 +442,24 @@ func TestVerifC01(t *testing.T) {
 			t.Fatal(err)
 		}
 	}
+	// a history that does not come to an end is a finding with that history as the failing input (a server or client
+	// wedged by what the history did), not a harness failure: each one runs under a generous real-time limit
+	var hangs atomic.Int32
 	run1 := func(i int) {
-		o := vRunHistory(hs[i])
+		limit := 180 * time.Second
+		if hangs.Load() >= 2 {
+			limit = 20 * time.Second
+		}
+		done := make(chan vHistOut, 1)
+		go func() { done <- vRunHistory(hs[i]) }()
+		var o vHistOut
+		select {
+		case o = <-done:
+		case <-time.After(limit):
+			hangs.Add(1)
+			o = vHistOut{Log: []vEntry{}, OK: false, Why: fmt.Sprintf("the history did not come to an end within %v of real time: "+
+				"the server or one of its clients is wedged by what this history did", limit)}
+		}
 		o.I = i
 		if o.Err != "" {
 			o.OK = false
